@@ -205,6 +205,7 @@ func OrderFacts(f *hc.Facts) {
 	routingFacts(f)
 	SkipFacts(f)
 	guardFacts(f)
+	creationFacts(f)
 }
 
 var guardNames = map[string]int{"diff.NewMessages": 0, "diff.NewEncryptedMessages": 1, "own": 2, "converted": 3, "rest": 4, "others": 5}
@@ -490,4 +491,51 @@ func routingFacts(f *hc.Facts) {
 		src := strings.Join(strings.Fields(f.FuncSrc(pkgDir, h.name)), " ")
 		f.Str(h.lean, src, "body of "+h.name+" (empty: the function does not exist)")
 	}
+}
+
+// creationFacts: internalState.handleChannel for a channel that is not tracked yet. Which value
+// does the initial SetChannelPts write (0 = localPts, the position before the update; 1 = pts, the
+// update's own position), and — pinned by source text with that argument blanked — the rest of
+// the branch (the worker starts from localPts, the stored value is used when the storage has one).
+func creationFacts(f *hc.Facts) {
+	fd := f.FuncDecl(pkgDir, "internalState.handleChannel")
+	verdict, why := -1, "no `if !found { localPts = pts - ptsCount; if err := s.storage.SetChannelPts(…) … }`"
+	src := ""
+	if fd != nil && fd.Body != nil {
+		src = strings.Join(strings.Fields(f.Src(fd.Body)), " ")
+		n := 0
+		ast.Inspect(fd.Body, func(nd ast.Node) bool {
+			call, ok := nd.(*ast.CallExpr)
+			if !ok {
+				return true
+			}
+			sel, ok := call.Fun.(*ast.SelectorExpr)
+			if !ok || sel.Sel.Name != "SetChannelPts" || len(call.Args) != 4 {
+				return true
+			}
+			n++
+			whole := strings.Join(strings.Fields(f.Src(call)), " ")
+			arg := strings.Join(strings.Fields(f.Src(call.Args[3])), " ")
+			blank := strings.TrimSuffix(whole, arg+")") + "_)"
+			src = strings.Replace(src, whole, blank, 1)
+			switch arg {
+			case "localPts":
+				verdict = 0
+			case "pts":
+				verdict = 1
+			default:
+				verdict, why = -1, "initial SetChannelPts writes "+arg
+			}
+			return true
+		})
+		if n != 1 {
+			verdict, why = -1, fmt.Sprintf("%d SetChannelPts calls in handleChannel", n)
+		}
+	}
+	if verdict < 0 {
+		f.Missing("creationStore", "internalState.handleChannel: "+why)
+	} else {
+		f.Nat("creationStore", verdict, "internalState.handleChannel: value of the initial SetChannelPts (0 localPts, 1 pts)")
+	}
+	f.Str("handleChannelSrc", src, "body of internalState.handleChannel, the value written by SetChannelPts blanked")
 }
